@@ -43,6 +43,10 @@ Definition fl_eqb (a b: fl) : bool :=
   | FNan, FNan => true
   | _, _ => false end.
 
+Inductive ckind := CTuple | CSet | CFrozenSet.
+Definition ckind_eqb (a b: ckind) : bool :=
+  match a, b with CTuple, CTuple | CSet, CSet | CFrozenSet, CFrozenSet => true | _, _ => false end.
+
 (* Python values of the small grammar *)
 Inductive pv :=
 | VNone
@@ -53,7 +57,10 @@ Inductive pv :=
 | VLeaf (k: lkind) (p: string)          (* bytes / datetime-like / other text-rendered leaf; p = identity of the value *)
 | VList (l: list pv)
 | VDict (kvs: list (string * pv))       (* str keys *)
-| VObj (c: string) (fs: list (string * pv)).   (* dataclass instance, fields in class order *)
+| VObj (c: string) (fs: list (string * pv))    (* dataclass instance, fields in class order *)
+| VColl (ck: ckind) (l: list pv)              (* tuple / set / frozenset (elements in iteration order) *)
+| VEnum (e: string) (m: string)               (* enum class, member name *)
+| VNT (c: string) (items: list pv).           (* named tuple instance *)
 
 (* trees handed to / returned by a format library ("basic form" when no BNat occurs) *)
 Inductive bv :=
@@ -77,12 +84,23 @@ Inductive ty :=
 | TOpt (t: ty)
 | TData (c: string)                      (* a dataclass, by name (also a forward reference to itself) *)
 | TSelf                                  (* typing.Self: the class whose field this is *)
-| TDiscr (fld: string) (vs: list (string * string)).
+| TDiscr (fld: string) (vs: list (string * string))
+| TColl (ck: ckind) (t: ty)               (* Tuple[T, ...] / Set[T] / FrozenSet[T]: a list on the wire *)
+| TEnum (e: string)                       (* an Enum class: member value on the wire *)
+| TNamed (c: string)                      (* a NamedTuple class: the list of its items on the wire *)
+| TTyped (c: string)                      (* a (total) TypedDict: a mapping with exactly the declared keys *)
+| TFix (c: string).                       (* Tuple[T1, .., Tn]: item types listed in the class table under a synthetic name *)
     (* Annotated[Union[C1..Cn], Discriminator(field=fld, include_supertypes=True)]: tag literal -> class *)
 
 (* field declaration: name, type, "default is None"; inherited fields are listed (flattened) *)
 Definition fdecl := (string * (ty * bool))%type.
-Definition env := list (string * list fdecl).
+Definition env := list (string * list fdecl).   (* dataclasses, named tuples and typed dicts, by name *)
+
+(* enum classes: member name -> member value (str or int) *)
+Inductive ev := EvStr (s: string) | EvInt (z: Z).
+Definition ev_eqb (a b: ev) : bool :=
+  match a, b with EvStr x, EvStr y => String.eqb x y | EvInt x, EvInt y => Z.eqb x y | _, _ => false end.
+Definition enums := list (string * list (string * ev)).
 
 Inductive err := EMissingField (n: string) | EBad.
 Inductive res (A: Type) := Ok (a: A) | Err (e: err).
@@ -194,6 +212,35 @@ Section UFields.
     end.
 End UFields.
 
+(* named tuples: items in lockstep with the declarations, a list on the wire *)
+Section Items.
+  Context (P: pv -> ty -> res bv).
+  Fixpoint pack_items (vs: list pv) (ds: list fdecl) {struct vs} : res (list bv) :=
+    match vs, ds with
+    | [], [] => Ok []
+    | x :: vs', (_, (ft, _)) :: ds' => b <- P x ft ;; r <- pack_items vs' ds' ;; Ok (b :: r)
+    | _, _ => Err EBad end.
+End Items.
+
+Section UItems.
+  Context (U: bv -> ty -> res pv).
+  Fixpoint unpack_items (bs: list bv) (ds: list fdecl) {struct bs} : res (list pv) :=
+    match bs, ds with
+    | [], [] => Ok []
+    | x :: bs', (_, (ft, _)) :: ds' => v <- U x ft ;; r <- unpack_items bs' ds' ;; Ok (v :: r)
+    | _, _ => Err EBad end.
+End UItems.
+
+Definition ev_to_bv (v: ev) : bv := match v with EvStr s => BStr s | EvInt z => BInt z end.
+Definition bv_to_ev (b: bv) : option ev := match b with BStr s => Some (EvStr s) | BInt z => Some (EvInt z) | _ => None end.
+
+(* Enum(value): the first member with that value *)
+Fixpoint enum_find (ms: list (string * ev)) (v: ev) : option string :=
+  match ms with
+  | [] => None
+  | (m, x) :: r => if ev_eqb x v then Some m else enum_find r v
+  end.
+
 Section DropGo.
   Context (D: bv -> bv).
   Fixpoint drop_go (l: list (string * bv)) : list (string * bv) :=
@@ -235,8 +282,9 @@ Section Leaves.
   (* user strategies (serialize / deserialize pairs given in a user dialect), by id *)
   Variable urender : nat -> lkind -> string -> string.
   Variable uparse : nat -> lkind -> string -> option string.
-  (* class table *)
+  (* class table, enum table *)
   Variable E : env.
+  Variable EN : enums.
 
   Definition pack_leaf (ls: lsem) (k: lkind) (p: string) : bv :=
     match ls.(ser_mode) k with
@@ -297,6 +345,35 @@ Section Leaves.
       | TDiscr _ vs => match v with
                        | VObj c' _ => if is_variant vs c' then pack_data (pack ls) ls.(omit_none) v c' else Err EBad
                        | _ => Err EBad end
+      | TColl ck t' => match v with
+                       | VColl ck' l => if ckind_eqb ck ck'
+                                        then bs <- mapM (fun x => pack ls x self t') l ;; Ok (BList bs)
+                                        else Err EBad
+                       | _ => Err EBad end
+      | TEnum e => match v with
+                   | VEnum e' m => if String.eqb e e' then
+                                     match lookup e EN with
+                                     | Some ms => match lookup m ms with Some x => Ok (ev_to_bv x) | None => Err EBad end
+                                     | None => Err EBad end
+                                   else Err EBad
+                   | _ => Err EBad end
+      | TNamed c => match v with
+                    | VNT c' items => if String.eqb c c' then
+                                        match lookup c E with
+                                        | Some ds => bs <- pack_items (fun x ft => pack ls x c ft) items ds ;; Ok (BList bs)
+                                        | None => Err EBad end
+                                      else Err EBad
+                    | _ => Err EBad end
+      | TTyped c => match v with
+                    | VDict kvs => match lookup c E with
+                                   | Some ds => bs <- pack_fields (fun x ft => pack ls x c ft) false kvs ds ;; Ok (BDict bs)
+                                   | None => Err EBad end
+                    | _ => Err EBad end
+      | TFix c => match v with
+                  | VColl CTuple items => match lookup c E with
+                                          | Some ds => bs <- pack_items (fun x ft => pack ls x self ft) items ds ;; Ok (BList bs)
+                                          | None => Err EBad end
+                  | _ => Err EBad end
       end.
 
   Definition bind_clos (U: bv -> string -> ty -> res pv) (c: string) (kv: string * bv) : string * (ty -> res pv) :=
@@ -341,6 +418,27 @@ Section Leaves.
                                               | None => Err EBad end
                          | _ => Err EBad end
           | _ => Err EBad end
+      | TColl ck t' => match b with
+                       | BList l => vs <- mapM (fun x => unpack ls x self t') l ;; Ok (VColl ck vs)
+                       | _ => Err EBad end
+      | TEnum e => match lookup e EN, bv_to_ev b with
+                   | Some ms, Some x => match enum_find ms x with Some m => Ok (VEnum e m) | None => Err EBad end
+                   | _, _ => Err EBad end
+      | TNamed c => match b with
+                    | BList l => match lookup c E with
+                                 | Some ds => vs <- unpack_items (fun x ft => unpack ls x c ft) l ds ;; Ok (VNT c vs)
+                                 | None => Err EBad end
+                    | _ => Err EBad end
+      | TTyped c => match b with
+                    | BDict kvs => match lookup c E with
+                                   | Some ds => vs <- unpack_fields (map (bind_clos (unpack ls) c) kvs) ds ;; Ok (VDict vs)
+                                   | None => Err EBad end
+                    | _ => Err EBad end
+      | TFix c => match b with
+                  | BList l => match lookup c E with
+                               | Some ds => vs <- unpack_items (fun x ft => unpack ls x self ft) l ds ;; Ok (VColl CTuple vs)
+                               | None => Err EBad end
+                  | _ => Err EBad end
       end.
 
   (* -- what the format library does to native leaves (part of the assumed law) --------- *)
@@ -399,7 +497,7 @@ Definition discr_okb (E: env) (fld: string) (vs: list (string * string)) : bool 
 
 Fixpoint wf_ty (E: env) (t: ty) : bool :=
   match t with
-  | TList t' | TDict t' | TOpt t' => wf_ty E t'
+  | TList t' | TDict t' | TOpt t' | TColl _ t' => wf_ty E t'
   | TDiscr fld vs => discr_okb E fld vs
   | _ => true
   end.
@@ -408,6 +506,12 @@ Fixpoint wf_ty (E: env) (t: ty) : bool :=
 Definition wf_env (E: env) : bool :=
   forallb (fun cd => match cd with (_, ds) =>
              nodupb (map fst ds) && forallb (fun d => match d with (_, (ft, _)) => wf_ty E ft end) ds end) E.
+
+(* member values of every enum are pairwise distinct (no aliases) *)
+Fixpoint ev_nodupb (l: list ev) : bool :=
+  match l with [] => true | x :: r => negb (existsb (ev_eqb x) r) && ev_nodupb r end.
+Definition wf_enums (EN: enums) : bool :=
+  forallb (fun e => match e with (_, ms) => ev_nodupb (map snd ms) && nodupb (map fst ms) end) EN.
 
 (* every Optional field of every class defaults to None *)
 Definition defaults_okb (E: env) : bool :=
@@ -430,6 +534,7 @@ Section LeavesOk.
     | VList l => forallb leaves_okb l
     | VDict kvs => forallb (fun kv => match kv with (_, x) => leaves_okb x end) kvs
     | VObj _ fs => forallb (fun kv => match kv with (_, x) => leaves_okb x end) fs
+    | VColl _ l | VNT _ l => forallb leaves_okb l
     | _ => true
     end.
 End LeavesOk.
@@ -616,6 +721,21 @@ Fixpoint pv_sim (a b: pv) {struct a} : bool :=
          | [] => true
          | (k, u) :: r => match lookup k y with Some w => pv_sim u w | None => false end && go r
          end) x
+  | VColl k x, VColl k' y =>
+      ckind_eqb k k' &&
+      (fix go (l1 l2: list pv) : bool :=
+         match l1, l2 with
+         | [], [] => true
+         | u :: r1, w :: r2 => pv_sim u w && go r1 r2
+         | _, _ => false end) x y
+  | VNT c x, VNT c' y =>
+      String.eqb c c' &&
+      (fix go (l1 l2: list pv) : bool :=
+         match l1, l2 with
+         | [], [] => true
+         | u :: r1, w :: r2 => pv_sim u w && go r1 r2
+         | _, _ => false end) x y
+  | VEnum e m, VEnum e' m' => String.eqb e e' && String.eqb m m'
   | VObj c x, VObj c' y =>
       String.eqb c c' &&
       (fix go (l1 l2: list (string * pv)) : bool :=
